@@ -13,7 +13,7 @@ import (
 
 func init() {
 	register(&Property{
-		ID: "C03",
+		ID:          "C03",
 		Explanation: "Structural necessary conditions of the rate bound. R1: in the limiter's consume routine every path from entry to the bucket set's Consume passes a TTLMap.Set of the very bucket set being consumed under the very key that was looked up, so the entry lifetime is re-armed on every access (otherwise a busy source's entry expires mid-traffic and it gets a fresh full burst). R2: a fresh bucket set is constructed only on the lookup-miss edge. R3: in the bucket's consume the store that debits availableTokens executes only on an edge implying availableTokens - tokens >= 0 (normal form; a stricter guard is accepted). R4: in the refill routine the credited amount is elapsed/timePerToken with elapsed = now - lastRefresh (dimension tokens = ns/ns), the checkpoint lastRefresh := now (the same now) is stored exactly under the guard credit != 0 computed on the UNCLAMPED sum, together with the credited store, and the cap availableTokens <= burst is applied afterwards on every path; timePerToken is period/average (ns per token). R5: TokenBucketSet.Consume consults every bucket: the consume loop ranges over the bucket map and has no exit other than exhaustion of the range.",
 		NotDecided: []string{
 			"the bound burst + T/(period/average) + 1 itself over every interval of every history: a numerical safety property over unbounded histories",
@@ -23,7 +23,7 @@ func init() {
 		Mutants: mutantsC03,
 	})
 	register(&Property{
-		ID: "C13",
+		ID:          "C13",
 		Explanation: "R1: in the bucket's consume, lastConsumed is zeroed before any exit, the debit of X tokens is followed on every path by lastConsumed := X, and rollback adds exactly lastConsumed back and zeroes it. R2: TokenBucketSet.Consume rolls every bucket back (a range loop over the same map with no other exit) exactly on the edge firstErr != nil || maxDelay > 0: the rollback is unreachable once those two true-edges are deleted and reachable from each of them; a delay is folded into the maximum only when neither this bucket nor an earlier one reported an error. R3: a request larger than the burst returns the undefined delay and a non-nil error before any debit. R4: the advertised delay is (tokens - availableTokens) x timePerToken (normal form; dimension ns). R5: the limiter returns the bucket error first and maps delay > 0 to MaxRateError carrying that same delay; the rate error handler answers 429 with X-Retry-In set from exactly that delay's String() (no rounding) before WriteHeader, and delegates any other error to the standard handler.",
 		NotDecided: []string{
 			"that waiting the advertised delay suffices and that an idle source regains its burst after burst x (period/average): integer-division arithmetic over reachable bucket states",
@@ -96,7 +96,21 @@ func ifs(fn *ssa.Function) []*ssa.If {
 }
 
 // edgeImplying returns the edges of fn's branches on which `want` certainly holds.
+// edgesImplying: the branch edges on which the comparison `want` is known to hold. A comparison
+// against the clock that goes through an integer timestamp (Unix/UnixNano/...) is not accepted as a
+// comparison of the instants themselves: it wraps outside 1678..2262 or truncates.
 func edgesImplying(p *Prog, fn *ssa.Function, want LinCmp) []Edge {
+	var out []Edge
+	for _, e := range edgesImplyingRaw(p, fn, want) {
+		if want.Mentions("now") && intTimestampIn(e.B.Instrs[len(e.B.Instrs)-1].(*ssa.If).Cond) != nil {
+			continue
+		}
+		out = append(out, e)
+	}
+	return out
+}
+
+func edgesImplyingRaw(p *Prog, fn *ssa.Function, want LinCmp) []Edge {
 	var out []Edge
 	for _, ifi := range ifs(fn) {
 		cmp, ok := CanonCmp(BuildExpr(p, ifi.Cond, nil))
@@ -921,6 +935,11 @@ func mutantsC03() []Mutant {
 		{Name: "no-cap", File: bk, Old: "\tif tb.availableTokens > tb.burst {\n\t\ttb.availableTokens = tb.burst\n\t}\n}", New: "}", Expect: "C03.R4"},
 		{Name: "debit-guard-off-by-one", File: bk, Old: "\tif tb.availableTokens < tokens {", New: "\tif tb.availableTokens < tokens-1 {", Expect: "C03.R3"},
 		{Name: "time-per-token-inverted", File: bk, Old: "\t\ttimePerToken:    time.Duration(int64(period) / rate.average),", New: "\t\ttimePerToken:    time.Duration(rate.average / int64(period) * int64(period) * int64(period)),", Expect: "C03.R4"},
+		{Name: "fail-open-on-error", File: "ratelimit/tokenlimiter.go", Old: "\t\ttl.log.Warn(\"limiting request %v %v, limit: %v\", req.Method, req.URL, err)\n\t\ttl.errHandler.ServeHTTP(w, req, err)\n\t\treturn\n", New: "\t\tvar re *MaxRateError\n\t\tif errors.As(err, &re) {\n\t\t\ttl.errHandler.ServeHTTP(w, req, err)\n\t\t\treturn\n\t\t}\n", Expect: "C03.R7"},
+		{Name: "map-sized-before-options", File: "ratelimit/tokenlimiter.go", Old: "\tsetDefaults(tl)\n\ttl.bucketSets = collections.NewTTLMap(tl.capacity)\n\treturn tl, nil", New: "\treturn tl, nil", More: []Edit{{"ratelimit/tokenlimiter.go", "\tfor _, o := range opts {\n\t\tif err := o(tl); err != nil {\n\t\t\treturn nil, err\n\t\t}\n\t}\n", "\tsetDefaults(tl)\n\ttl.bucketSets = collections.NewTTLMap(tl.capacity)\n\tfor _, o := range opts {\n\t\tif err := o(tl); err != nil {\n\t\t\treturn nil, err\n\t\t}\n\t}\n"}}, Expect: "C03.R8"},
+		{Name: "delay-rounded", File: "ratelimit/bucket.go", Old: "\treturn time.Duration(missingTokens) * tb.timePerToken", New: "\treturn (time.Duration(missingTokens) * tb.timePerToken).Round(clock.Millisecond)", Expect: "C03.R9"},
+		{Name: "ttl-without-plus-one", File: "ratelimit/tokenlimiter.go", Old: "int(bucketSet.maxPeriod/clock.Second)*10+1)", New: "int(bucketSet.maxPeriod/clock.Second)*10)", Expect: "C03.R10"},
+		{Name: "lookup-outside-mutex", File: "ratelimit/tokenlimiter.go", Old: "\ttl.mutex.Lock()\n\tdefer tl.mutex.Unlock()\n\n\teffectiveRates := tl.resolveRates(req)\n\tbucketSetI, exists := tl.bucketSets.Get(source)\n", New: "\teffectiveRates := tl.resolveRates(req)\n\tbucketSetI, exists := tl.bucketSets.Get(source)\n\n\ttl.mutex.Lock()\n\tdefer tl.mutex.Unlock()\n", Expect: "C03.R6"},
 	}
 }
 
@@ -938,5 +957,6 @@ func mutantsC13() []Mutant {
 		{Name: "rollback-first-bucket-only", File: bs, Old: "\t\t\ttokenBucket.rollback()\n", New: "\t\t\ttokenBucket.rollback()\n\t\t\tbreak\n", Expect: "C13.R2"},
 		{Name: "rollback-keeps-lastconsumed", File: bk, Old: "\ttb.availableTokens += tb.lastConsumed\n\ttb.lastConsumed = 0\n", New: "\ttb.availableTokens += tb.lastConsumed\n", Expect: "C13.R1"},
 		{Name: "status-503", File: tl, Old: "\t\tw.WriteHeader(http.StatusTooManyRequests)", New: "\t\tw.WriteHeader(http.StatusServiceUnavailable)", Expect: "C13.R5"},
+		{Name: "consume-moves-checkpoint", File: "ratelimit/bucket.go", Old: "\ttb.availableTokens -= tokens\n\ttb.lastConsumed = tokens\n", New: "\ttb.availableTokens -= tokens\n\ttb.lastConsumed = tokens\n\ttb.lastRefresh = clock.Now().UTC()\n", Expect: "C13.R7"},
 	}
 }
